@@ -11,6 +11,13 @@
     returns to the executor instead (property intact; covered so that the acceptor need not pin it); [wf_items p] says chain/join items name earlier promise
     items, each once; [bfun_ok p] is the documented contract of batch resolvers (one result per field
     context).  Every theorem quantifies over ALL interleavings [tr]: no bound on sizes or schedules.
+    CANCELLATION of the request context is the environment label [LCancel], enabled at any point
+    (once): every theorem below therefore holds with the cancellation interleaved anywhere — before
+    the first resolver, between waves, while functions run, after the last delivery.  What the code
+    does with it is part of the model: the executor stops invoking resolvers (it just takes no more
+    [LCreate]), functions given to Go may return something else (their results are [prog]'s), and the
+    idle handler / the hand-over in Go / chain / join ignore it; "every started function returns"
+    is the LTS' assumption that [LFinish] is enabled for a goroutine inside f().
 
     RUNTIME RESIDUE (why the claim is labelled partial): that the Go scheduler, unbuffered / buffered
     channel operations, [select] and [sync.WaitGroup] behave as the LTS' labels say is assumed, not
@@ -65,8 +72,9 @@ Section C15.
   Proof. exact (batch_coalesced p WF BF fx). Qed.
 
   (** NO DEADLOCK.  In every reachable state in which the request has not returned, a step is
-      enabled that does not depend on the query ([forced]: any label except "a resolver is invoked"
-      and "a sibling failure discards a pending field"): the executor can take a result, enter the
+      enabled that depends neither on the query nor on the environment ([forced]: any label except
+      "a resolver is invoked", "a sibling failure discards a pending field" and "the request context
+      is cancelled"): the executor can take a result, enter the
       idle handler or return; inside the idle handler a batch can be flushed, or some goroutine can
       move towards the hand-over the handler is blocked on, or the handler can receive / return. *)
   Theorem C15_deadlock_free : forall tr s,
@@ -74,9 +82,9 @@ Section C15.
     exists l s', forced l = true /\ step fx p s l = Some s'.
   Proof. exact (deadlock_free_run p WF BF fx). Qed.
 
-  (** NO LIVELOCK.  No interleaving has more than 36 n + 1 steps (n = number of work items). *)
+  (** NO LIVELOCK.  No interleaving has more than 36 n + 5 steps (n = number of work items). *)
   Theorem C15_terminates : forall tr s,
-    run fx p init tr = Some s -> length tr <= 36 * length (p_items p) + 1.
+    run fx p init tr = Some s -> length tr <= 36 * length (p_items p) + 5.
   Proof. exact (terminates p WF BF fx). Qed.
 
   (** COMPLETION.  From every reachable state the request returns, by forced steps alone. *)
@@ -168,6 +176,17 @@ Theorem C15_response_eq_sync_composed : forall md root (cs1 cs2 : list (list nat
     FutSpec.conforms root (ExecAsync.r_data r2) (ExecAsync.r_errors r2).
 Proof. exact response_independent_of_handler_rounds. Qed.
 
+(** A hand-over in Go that also selects on the request context (the seeded change C15-2, as the
+    step relation [step_ctxdrop]): after a cancellation the goroutine may end without handing its
+    result over; the request [create 0; idle-enter; cancel; finish 0; arrive 0; exit 0] is then inside
+    the idle handler's blocking receive, still waits for promise 0, and no forced label is enabled
+    ever again: COMPLETION and NO DEADLOCK fail, which is why the hand-over must not look at ctx. *)
+Theorem C15_completes_refuted_with_ctx_drop :
+  exists p tr s, wf_items p = true /\ bfun_ok p /\ run_ctxdrop current p init tr = Some s /\
+                 st_phase s = PTop /\ live p s 0 = true /\
+                 forall l, forced l = true -> step_ctxdrop current p s l = None.
+Proof. exact completes_refuted_with_ctx_drop. Qed.
+
 (** The defect of the pinned tree, kept as a witness: without the executionDone case a request
     ({slow bad}: a Go field whose promise is abandoned) reaches a state in which the request has
     returned, a goroutine sits at its send, and nothing can ever move again. *)
@@ -189,6 +208,7 @@ Print Assumptions C15_completes.
 Print Assumptions C15_no_leak.
 Print Assumptions C15_drains.
 Print Assumptions C15_no_leak_refuted_before_fix.
+Print Assumptions C15_completes_refuted_with_ctx_drop.
 Print Assumptions C15_idle_round_fulfils.
 Print Assumptions C15_idle_round_fair_unchained.
 Print Assumptions C15_idle_rounds_bounded.
